@@ -1,6 +1,7 @@
 import NgoVerif.Meta.Compose
 import NgoVerif.Meta.Meta2
 import NgoVerif.Meta.M4
+import NgoVerif.Proofs.C20heads
 /-!
 # C06 — traits that only add auxiliary predicates keep all source atoms, one-to-one
 
@@ -39,5 +40,11 @@ theorem C06_recursive_aux_sound_partial {α : Type} (P : HT.Prog α) (D : HT.RDe
     (hP : ∀ r, P r → HT.Indep D.A r) (T : HT.Interp α) (hT : HT.Stable P T) (hno : ∀ a, D.A a → ¬ T a) :
     HT.Stable (HT.Union P D.prog) (HT.rext D T) :=
   HT.rdef_ext_sound P D hP T hT hno
+
+/-- the auxiliary rules of the domain/order machinery are deterministic rules (plain atom heads): this is the syntactic
+premise under which `C06_aux_sound`/`C06_recursive_aux_sound_partial` apply to what `dependency.py` adds -/
+theorem C06_order_aux_plain (st st' : Dep.DomState) (r : Dep.Req) (rs : List Stm)
+    (h : Dep.runReq st r = (.ok rs, st')) : rs.all Proofs.C20heads.plainRule = true :=
+  Proofs.C20heads.runReq_plain st st' r rs h
 
 end NgoVerif
